@@ -135,6 +135,24 @@ static void print_point(const PT& p)
 }
 
 // ---------------------------------------------------------------- kernels
+// init() takes its parameters by const reference: the caller may pass a temporary, or reuse and change the object for its next
+// LiDAR. The object handed over here is overwritten and freed as soon as init() returns; a driver that kept a pointer or
+// reference into it (instead of its own copy) reads freed memory (reported by ASan) or another configuration.
+template <typename D>
+static bool init_from_temporary(D& drv, const RSDriverParam& src)
+{
+  RSDriverParam* q = new RSDriverParam(src);
+  bool ok = drv.init(*q);
+  q->input_param.pcap_path = "/nonexistent/overwritten-after-init.pcap"; q->input_param.pcap_repeat = !q->input_param.pcap_repeat;
+  q->input_param.msop_port = 1; q->input_param.difop_port = 2; q->input_param.use_vlan = !q->input_param.use_vlan;
+  q->input_param.user_layer_bytes = 77; q->input_param.tail_layer_bytes = 33; q->input_param.host_address = "203.0.113.1"; q->input_param.group_address = "239.1.2.3";
+  q->decoder_param.min_distance = 50.0f; q->decoder_param.max_distance = 51.0f; q->decoder_param.start_angle = 10.0f; q->decoder_param.end_angle = 11.0f;
+  q->decoder_param.dense_points = !q->decoder_param.dense_points; q->decoder_param.use_lidar_clock = !q->decoder_param.use_lidar_clock;
+  q->decoder_param.num_blks_split = 7; q->decoder_param.split_angle = 123.0f; q->frame_id = "overwritten";
+  delete q;
+  return ok;
+}
+
 static void set_tz(long tz)
 {
   char buf[64];
@@ -592,7 +610,7 @@ static int run_scenario(std::vector<std::string>& lines)
         LOCKED_PRINT("lcreate %d\n", in->idx);
       }
       else if (!in->drv) { LOCKED_PRINT("nodrv %d\n", in->idx); continue; }
-      else if (c == "LI") { bool ok = in->drv->init(in->lparam); LOCKED_PRINT("linit %d %d\n", in->idx, (int)ok); }
+      else if (c == "LI") { bool ok = init_from_temporary(*in->drv, in->lparam); LOCKED_PRINT("linit %d %d\n", in->idx, (int)ok); }
       else if (c == "LS") { bool ok = in->drv->start(); LOCKED_PRINT("lstart %d %d\n", in->idx, (int)ok); }
       else if (c == "LX")
       {
@@ -756,7 +774,7 @@ static int run_scenario(std::vector<std::string>& lines)
       in->drv->regPointCloudCallback([in]() { return in->get(); }, [in](std::shared_ptr<PC> c) { in->put(c); });
       in->drv->regExceptionCallback([in](const Error& e) { in->err(e); });
       if (in->pktcb) in->drv->regPacketCallback([in](const Packet& p) { in->pkt(p); });
-      bool ok = in->drv->init(in->param);
+      bool ok = init_from_temporary(*in->drv, in->param);
       if (!ok) fprintf(OUT, "initfail %d\n", in->idx);
     }
     else if (c == "N")
@@ -800,7 +818,7 @@ static int run_scenario(std::vector<std::string>& lines)
       in->drv->regExceptionCallback([in](const Error& e) { in->err(e); });
       if (in->pktcb) in->drv->regPacketCallback([in](const Packet& pk) { in->pkt(pk); });
       g_pcap_exit = 0; g_pcap_repeat = 0;
-      bool ok = in->drv->init(p);
+      bool ok = init_from_temporary(*in->drv, p);
       if (!ok) { fprintf(OUT, "initfail %d\n", in->idx); if (!path.empty()) unlink(path.c_str()); continue; }
       std::function<bool()> quiet_now;      // set below, once the driver runs
       auto send_all = [&](bool paced) {
